@@ -162,6 +162,16 @@ def lex_comment(
     then returns what they return.
     """
 
+    if (
+        preserve["state"] == Preserve.COMMENT
+        and preserve["end"] in c_info["single_comments"].values()
+    ):
+        # Inside a comment that runs to the end of the line, the characters
+        # that delimit the other kind of comment mean nothing.
+        return lex_singlechar_comments(
+            char, lexeme, preserve, c_info["single_comments"]
+        )
+
     if char in c_info["multi_chars"]:
         return lex_multichar_comments(
             char,
